@@ -146,7 +146,19 @@ fn excl_and_plan(seed: u64, idx: u64, rep: &mut Report) {
     let mut pats: Vec<String> = Vec::new();
     for _ in 0..npat {
         let base = rng.pick(&uni).clone();
-        let mut s: String = match rng.below(5) {
+        let mut s: String = match rng.below(7) {
+            // a spelling of the whole path that a path library would normalise and a pattern matcher must not
+            5 | 6 => {
+                let b = base.clone();
+                match rng.below(6) {
+                    0 => b.replacen('/', "//", 1),
+                    1 => b.replacen('/', "/./", 1),
+                    2 => format!("{b}/."),
+                    3 => format!("./{b}"),
+                    4 => format!("{b}//"),
+                    _ => format!("{}/../{b}", comp(&mut rng)),
+                }
+            }
             0 => base.clone(),                                              // whole path
             1 => base.split('/').next().unwrap().to_string(),                // first component
             2 => base.split('/').last().unwrap().to_string(),                // last component
@@ -154,7 +166,8 @@ fn excl_and_plan(seed: u64, idx: u64, rep: &mut Report) {
             _ => format!("{}/{}", comp(&mut rng), comp(&mut rng)),
         };
         // replace some chars by wildcards
-        let cs: Vec<char> = s.chars().map(|c| if c != '/' && rng.chance(1, 4) { if rng.chance(1, 2) { '*' } else { '?' } } else { c }).collect();
+        let keep_literal = rng.chance(1, 2);
+        let cs: Vec<char> = s.chars().map(|c| if c != '/' && !keep_literal && rng.chance(1, 4) { if rng.chance(1, 2) { '*' } else { '?' } } else { c }).collect();
         s = cs.into_iter().collect();
         if rng.chance(1, 8) {
             s.push('/');
